@@ -8,7 +8,6 @@ From V Require Export Proofs.C08Sweeps Proofs.C08Days.
 Import ListNotations.
 Open Scope Z_scope.
 Ltac Zify.zify_post_hook ::= Z.to_euclidean_division_equations.
-Set Default Timeout 300.
 
 (** offset between ordinals and ISO week numbering of year [y]: a day with ordinal [o] lies in
     "raw" week [(o + iso_delta y) / 7]; derived from the weekday [p] of 31 December of [y-1] *)
